@@ -28,9 +28,11 @@ import (
 )
 
 type Inst struct {
-	Base string // corpus name
-	K    int    // number of query rounds kept
-	Pow  int    // >= 0: proof_of_work_bits of the configuration lowered to this value (both copies)
+	Base string  // corpus name
+	K    int     // number of query rounds kept
+	Pow  int     // >= 0: proof_of_work_bits of the configuration lowered to this value (both copies)
+	Zero bool    // zero query rounds
+	Wit  *uint64 // replaced pow_witness of the proof document
 	Raw  types.ProofWithPublicInputsRaw
 	VRaw types.VerifierOnlyCircuitDataRaw
 	CD   types.CommonCircuitData
@@ -38,10 +40,14 @@ type Inst struct {
 }
 
 func (in *Inst) Name() string {
+	n := fmt.Sprintf("%s/k=%d", in.Base, in.K)
 	if in.Pow >= 0 {
-		return fmt.Sprintf("%s/k=%d/pow_bits=%d", in.Base, in.K, in.Pow)
+		n += fmt.Sprintf("/pow_bits=%d", in.Pow)
 	}
-	return fmt.Sprintf("%s/k=%d", in.Base, in.K)
+	if in.Wit != nil {
+		n += fmt.Sprintf("/pow_witness=%d", *in.Wit)
+	}
+	return n
 }
 
 var (
@@ -66,15 +72,51 @@ func readFile(p string) []byte {
 // Load returns corpus instance base restricted to its first k query rounds (k<=0 or k>=total:
 // the full proof).  The restriction is valid because the query indices are the last draws of the
 // transcript: the first k of them do not depend on how many are drawn.
-// A base name may carry a configuration variant: "A1@pow0" = corpus proof A1 checked against its
-// circuit description with proof_of_work_bits lowered to 0.
+// A base name may carry variants, separated by "@":
+//
+//	"A1@pow0"        corpus proof A1 checked against its description with proof_of_work_bits lowered to 0
+//	"A1@k0@pow0"     additionally restricted to zero query rounds (a degenerate but well-formed configuration)
+//	"A1@k0@pow0@w7"  and with the proof document's pow_witness replaced by 7: without grinding and without
+//	                 queries every witness value gives a proof the reference verifier accepts
 func Load(base string, k int) *Inst {
-	if i := strings.Index(base, "@pow"); i > 0 {
-		pow, err := strconv.Atoi(base[i+4:])
-		must(err)
-		return LoadPow(base[:i], k, pow)
+	parts := strings.Split(base, "@")
+	pow := -1
+	zero := false
+	var wit *uint64
+	for _, v := range parts[1:] {
+		switch {
+		case strings.HasPrefix(v, "pow"):
+			n, err := strconv.Atoi(v[3:])
+			must(err)
+			pow = n
+		case v == "k0":
+			zero = true
+		case strings.HasPrefix(v, "w"):
+			n, err := strconv.ParseUint(v[1:], 10, 64)
+			must(err)
+			wit = &n
+		default:
+			panic("wv: unknown variant " + v)
+		}
 	}
-	return LoadPow(base, k, -1)
+	if wit != nil && !(zero && pow == 0) {
+		panic("wv: a replaced pow_witness is only valid without queries and without grinding")
+	}
+	in := LoadPow(parts[0], k, pow)
+	if zero {
+		in.K = 0
+		in.Zero = true
+		in.Raw.Proof.OpeningProof.QueryRoundProofs = in.Raw.Proof.OpeningProof.QueryRoundProofs[:0]
+		in.CD.Config.FriConfig.NumQueryRounds, in.CD.FriParams.Config.NumQueryRounds = 0, 0
+		in.Ref.P.Proof.OpeningProof.QueryRoundProofs = in.Ref.P.Proof.OpeningProof.QueryRoundProofs[:0]
+		in.Ref.C.Config.FriConfig.NumQueryRounds, in.Ref.C.FriParams.Config.NumQueryRounds = 0, 0
+	}
+	if wit != nil {
+		in.Wit = wit
+		in.Raw.Proof.OpeningProof.PowWitness = *wit
+		in.Ref.P.Proof.OpeningProof.PowWitness = *wit
+	}
+	return in
 }
 
 // LoadPow additionally lowers the configured proof-of-work difficulty to pow bits (pow < 0: keep).
@@ -278,6 +320,9 @@ func (in *Inst) writeFiles() string {
 	k := json.Number(fmt.Sprint(in.K))
 	c["config"].(map[string]any)["fri_config"].(map[string]any)["num_query_rounds"] = k
 	c["fri_params"].(map[string]any)["config"].(map[string]any)["num_query_rounds"] = k
+	if in.Wit != nil {
+		op["pow_witness"] = json.Number(fmt.Sprint(*in.Wit))
+	}
 	if in.Pow >= 0 {
 		pw := json.Number(fmt.Sprint(in.Pow))
 		c["config"].(map[string]any)["fri_config"].(map[string]any)["proof_of_work_bits"] = pw
